@@ -57,7 +57,11 @@ func (c collValue[T, PT]) Decode(b []byte) (T, error) {
 	return v, err
 }
 
-func (c collValue[T, PT]) EncodeJSON(value T) ([]byte, error) { panic("models.CollValue: JSON not modelled") }
-func (c collValue[T, PT]) DecodeJSON(b []byte) (T, error)     { panic("models.CollValue: JSON not modelled") }
-func (c collValue[T, PT]) Stringify(value T) string           { return "value" }
-func (c collValue[T, PT]) ValueType() string                  { return "models.CollValue" }
+func (c collValue[T, PT]) EncodeJSON(value T) ([]byte, error) {
+	panic("models.CollValue: JSON not modelled")
+}
+func (c collValue[T, PT]) DecodeJSON(b []byte) (T, error) {
+	panic("models.CollValue: JSON not modelled")
+}
+func (c collValue[T, PT]) Stringify(value T) string { return "value" }
+func (c collValue[T, PT]) ValueType() string        { return "models.CollValue" }
